@@ -279,6 +279,10 @@ func c19Workload(e *Env, n int, label string) c19Stats {
 	e.Par(len(recs), func(i int) {
 		rc := recs[i]
 		res, info := porcupine.CheckOperationsVerbose(regModel, toOps(rc.evs), 10*time.Second)
+		if res == porcupine.Unknown {
+			// a loaded machine is not a verdict: give the checker a much longer second chance
+			res, info = porcupine.CheckOperationsVerbose(regModel, toOps(rc.evs), 3*time.Minute)
+		}
 		p, skr := overlaps(rc.evs)
 		mu.Lock()
 		defer mu.Unlock()
